@@ -128,6 +128,9 @@ class HarnessTimeout(Exception):
     pass
 
 
+TIMEOUTS = []
+
+
 def run_both(lines, mode, variant="f64", timeout=1200):
     """run the same command text through the harness and through the model"""
     text = "\n".join(lines) + "\n"
@@ -215,6 +218,12 @@ def view_full(cmd, out):
     return out
 
 
+def view_values(cmd, out):
+    """C01-C07, C14, C15: dimensions and values (and refusals); the tracking flag shown next to a
+    tensor belongs to C09"""
+    return re.sub(r" \| tr=[01]", "", out)
+
+
 def view_flags(cmd, out):
     """C09: only tracking flags, gradient presence, stored-operand flags, sole ownership"""
     w = cmd.split()[0]
@@ -265,10 +274,11 @@ def view_cntpend(cmd, out):
 
 
 def view_rc(cmd, out):
-    """C18: owner counts and sole-owner extraction"""
+    """C18: sole-owner extraction (`own`), and owner counts at the points where the model says the
+    handle is the sole owner (a count the implementation may only match)"""
     w = cmd.split()[0]
     if out in ("PANIC", "-", "BADCMD"):
-        return out if w in ("own", "probe") else None
+        return out if w == "own" else None
     if w == "probe":
         return kv(out, ["rc"])
     if w == "own":
@@ -313,7 +323,7 @@ def view_update(cmd, out):
     return None
 
 
-VIEWS = {"full": view_full, "flags": view_flags, "shape": view_shape, "cntpend": view_cntpend, "rc": view_rc,
+VIEWS = {"full": view_full, "values": view_values, "flags": view_flags, "shape": view_shape, "cntpend": view_cntpend, "rc": view_rc,
          "meta": view_meta, "log": view_log, "none": view_none, "update": view_update}
 
 
@@ -347,6 +357,8 @@ def compare_case(cmds, impl, model, mode, tol, bits=50, view="full"):
             break
         vi, vm = vf(cmds[i], il), vf(cmds[i], ml)
         vs = vf(cmds[i], spec) if spec is not None else None
+        if view == "rc" and vm is not None and vm.startswith("rc=") and vm != "rc=1":
+            vi = vm = vs = None
         if vi is not None and vm is not None:
             if vs is not None and not lines_agree(vi, vs, mode, tol):
                 out.append(("impl-vs-spec", i, il, ml, spec))
@@ -369,13 +381,20 @@ def run_cases(cases, mode, variant, tol, view="full"):
         lines.extend(c.lines)
         spans.append((start, len(lines)))
     try:
-        impl, model, rci, rcm, ei, em = run_both(lines, mode, variant, timeout=(20 if len(cases) == 1 else 60))
+        impl, model, rci, rcm, ei, em = run_both(lines, mode, variant, timeout=(6 if len(cases) == 1 else 30))
     except HarnessTimeout:
-        # the implementation did not finish although the model did: find the case
+        # the implementation did not finish although the model did: find the case(s), one by one
         if len(cases) == 1:
-            return [[("timeout", len(cases[0].lines) - 1, "implementation still running after 20 s", "model finished", None)]]
-        half = len(cases) // 2
-        return run_cases(cases[:half], mode, variant, tol, view) + run_cases(cases[half:], mode, variant, tol, view)
+            TIMEOUTS.append(1)
+            return [[("timeout", len(cases[0].lines) - 1, "implementation still running after 6 s (the model finished in milliseconds)", "model finished", None)]]
+        if len(TIMEOUTS) >= 3:
+            # enough hanging cases have been isolated already in this run
+            return [[("timeout", len(c.lines) - 1, "chunk timed out (not isolated further)", "model finished", None)] if i == 0 else []
+                    for i, c in enumerate(cases)]
+        out = []
+        for c in cases:
+            out.extend(run_cases([c], mode, variant, tol, view))
+        return out
     results = []
     crashed = (rci != 0 or rcm != 0 or len(impl) != len(lines) or len(model) != len(lines))
     if crashed:
@@ -561,7 +580,7 @@ def main():
             corr[name] = stats
             continue
         view = fam.get("view", "full")
-        kinds_ok = fam.get("kinds")          # None = every kind is decisive
+        kinds_ok = fam.get("kinds", ["impl-vs-spec", "impl-vs-model", "model-vs-spec", "immut", "crash", "length"])
         stats["view"] = view
         chunks = [cases[i:i + 40] for i in range(0, len(cases), 40)]
         with ThreadPoolExecutor(max_workers=min(16, max(1, len(chunks)))) as ex:
@@ -573,12 +592,15 @@ def main():
             bv = fam["baseline_variant"]
             btol = families.TOL[mode if mode != "f32" else "float"]
             bmode = "float" if mode == "f32" else mode
-            bcases = cases
+            bchunks = chunks
             if mode == "f32":
-                bcases = None     # f32 bit patterns cannot be replayed on the f64 build
-            if bcases is not None:
+                # the same numbers (every f32 is an f64) written as f64 bit patterns
+                def widen(line):
+                    return re.sub(r"\bx([0-9a-f]{8})\b", lambda m: gen.fhex(struct.unpack("<f", struct.pack("<I", int(m.group(1), 16)))[0]), line)
+                bchunks = [[gen.Case([widen(l) for l in c.lines], c.key, c.tags, "float", c.nontrivial) for c in ch] for ch in chunks]
+            if True:
                 with ThreadPoolExecutor(max_workers=min(16, max(1, len(chunks)))) as ex:
-                    bres = [r for rs in ex.map(lambda ch: run_cases(ch, bmode, bv, btol, view), chunks) for r in rs]
+                    bres = [r for rs in ex.map(lambda ch: run_cases(ch, bmode, bv, btol, view), bchunks) for r in rs]
                 filtered = []
                 shared = 0
                 for fs, bs in zip(flat, bres):
@@ -592,7 +614,7 @@ def main():
         for c, findings in zip(cases, flat):
             for f in findings:
                 k = f[0]
-                if kinds_ok is not None and k not in kinds_ok and k != "inexact":
+                if k not in kinds_ok and k != "inexact":
                     stats["nondecisive_findings"] = stats.get("nondecisive_findings", 0) + 1
                     continue
                 if k == "inexact":
@@ -611,8 +633,11 @@ def main():
                 first.setdefault(k, (c, f))
         if cases and len(samples) < 6:
             c = cases[len(cases) // 2]
-            impl, model, *_ = run_both(["case"] + c.lines, mode, variant)
-            samples.append({"family": name, "mode": mode, "commands": c.lines[:12], "impl": impl[1:13], "model": model[1:13]})
+            try:
+                impl, model, *_ = run_both(["case"] + c.lines, mode, variant, timeout=10)
+                samples.append({"family": name, "mode": mode, "commands": c.lines[:12], "impl": impl[1:13], "model": model[1:13]})
+            except HarnessTimeout:
+                samples.append({"family": name, "mode": mode, "commands": c.lines[:12], "impl": ["<timeout>"], "model": []})
         corr[name] = stats
         # decide per family
         order = ["impl-vs-spec", "immut", "impl-vs-model", "timeout", "crash", "length", "model-vs-spec"]
